@@ -5,6 +5,7 @@ import (
 	"fmt"
 	"log/slog"
 	"os"
+	"regexp"
 
 	"github.com/urfave/cli/v3"
 	"go.uber.org/automaxprocs/maxprocs"
@@ -121,7 +122,12 @@ func actionSetup(c *cli.Command) (meta actionMeta, err error) {
 	}
 	if fromFile {
 		slog.Debug("Adding pint config to the parser exclude list", slog.String("path", c.String(configFlag)))
-		meta.cfg.Parser.Exclude = append(meta.cfg.Parser.Exclude, c.String(configFlag))
+		exclude := c.String(configFlag)
+		if _, reErr := regexp.Compile("^" + exclude + "$"); reErr != nil {
+			// The exclude list holds regexps, a path that isn't one is matched literally.
+			exclude = regexp.QuoteMeta(exclude)
+		}
+		meta.cfg.Parser.Exclude = append(meta.cfg.Parser.Exclude, exclude)
 	}
 
 	meta.cfg.SetDisabledChecks(c.StringSlice(disabledFlag))
